@@ -228,6 +228,7 @@ class Skeleton:
     prologue: List[str] = field(default_factory=list)        # statements before StreamController::new that touch `s`
     body_group: Optional[Tok] = None
     fn_helpers: set = field(default_factory=set)
+    unknown_toks: list = field(default_factory=list)
 
     def canon(self, name):
         seen = set()
@@ -358,6 +359,7 @@ def scan_create_closure(body: Tok, src: str, sk: Skeleton, create_param: str):
                 sk.prologue.append(txt)
             else:
                 sk.unknown.append(txt)
+                sk.unknown_toks.append(st)
     visit(body.kids)
     # aliases anywhere below (e.g. inside the `.map(move |_| { let sctl_next = sctl.clone(); ... })` that builds observers)
     def deep_aliases(kids):
